@@ -22,8 +22,8 @@ Definition upd2 {A} (f : N -> N -> A) (k1 k2 : N) (v : A) : N -> N -> A :=
   fun a b => if N.eqb a k1 && N.eqb b k2 then v else f a b.
 
 (* the part of the example's NFT (Base) the role-guarded entry points touch: owner and single-token
-   approval (approvals are given with a live_until beyond the horizon of a trace; approve_for_all is never used) *)
-Record nftst := { n_owner : N -> option addr; n_appr : N -> option addr }.
+   approval ApprovalData { approved, live_until_ledger } (approve_for_all is never used) *)
+Record nftst := { n_owner : N -> option addr; n_appr : N -> option (addr * Z) }.
 
 Record st := {
   a_now : Z;
@@ -44,6 +44,14 @@ Definition set_nft (s : st) (f : nftst) : st :=
      a_member := a_member s; a_count := a_count s; a_existing := a_existing s; a_nft := f |}.
 
 Definition is_some {A} (o : option A) : bool := match o with Some _ => true | None => false end.
+
+(* Base::get_approved: the stored approval unless its live_until_ledger has passed.  (The temporary entry
+   itself lives at least until live_until_ledger: set + extend_ttl(live_for, live_for).) *)
+Definition approved_of (now : Z) (f : nftst) (t : N) : option addr :=
+  match n_appr f t with
+  | Some (a, lu) => if lu <? now then None else Some a
+  | None => None
+  end.
 
 (* has_role(e, account, role).is_some() *)
 Definition has_role (s : st) (a : addr) (r : role) : bool := is_some (a_has s a r).
@@ -151,7 +159,7 @@ Inductive call :=
 | MultiRoleAuthAction (caller : addr) (auths : list addr)          (* #[only_any_role] *)
 | Burn (from : addr) (token : N) (auths : list addr)               (* #[has_role(from, "burner")] + Base::burn *)
 | BurnFrom (spender from : addr) (token : N) (auths : list addr)   (* #[has_role(spender, "burner")] + Base::burn_from *)
-| Approve (approver approved : addr) (token : N) (auths : list addr) (* NonFungibleToken::approve (not role-guarded) *)
+| Approve (approver approved : addr) (token : N) (live_until : Z) (auths : list addr) (* NonFungibleToken::approve (not role-guarded) *)
 | Advance (n : N).
 
 Definition exec (c : cfg) (s : st) (cl : call) : res st :=
@@ -192,17 +200,22 @@ Definition exec (c : cfg) (s : st) (cl : call) : res st :=
       do _a <- guard (has_role s spender (burner c));
       do _b <- guard (has_auth auths spender);                     (* spender.require_auth() *)
       do _d <- guard (N.eqb spender from                           (* check_spender_approval *)
-                      || match n_appr (a_nft s) token with Some ap => N.eqb ap spender | None => false end);
+                      || match approved_of (a_now s) (a_nft s) token with Some ap => N.eqb ap spender | None => false end);
       do o <- of_option (n_owner (a_nft s) token);
       do _c <- guard (N.eqb o from);
       Ok (set_nft s {| n_owner := upd (n_owner (a_nft s)) token None;
                        n_appr := upd (n_appr (a_nft s)) token None |})
-  | Approve approver approved token auths =>
+  | Approve approver approved token lu auths =>
       do _b <- guard (has_auth auths approver);                    (* approver.require_auth() *)
       do o <- of_option (n_owner (a_nft s) token);                 (* owner_of *)
       do _c <- guard (N.eqb approver o);                           (* InvalidApprover (no operators) *)
-      Ok (set_nft s {| n_owner := n_owner (a_nft s);
-                       n_appr := upd (n_appr (a_nft s)) token (Some approved) |})
+      if lu =? 0 then                                              (* remove the approval *)
+        Ok (set_nft s {| n_owner := n_owner (a_nft s); n_appr := upd (n_appr (a_nft s)) token None |})
+      else
+        do _d <- guard (negb (lu <? a_now s));                     (* InvalidLiveUntilLedger *)
+        do _e <- guard (lu - a_now s <=? max_ttl (host c) - 1);    (* extend_ttl beyond the maximum traps *)
+        Ok (set_nft s {| n_owner := n_owner (a_nft s);
+                         n_appr := upd (n_appr (a_nft s)) token (Some (approved, lu)) |})
   | Advance n =>
       Ok {| a_now := a_now s + Z.of_N n; a_rt := a_rt s; a_role_admin := a_role_admin s;
             a_has := a_has s; a_member := a_member s; a_count := a_count s;
@@ -259,4 +272,4 @@ Definition observe (u : universe) (s : st) : aobs :=
      ob_roles := map (observe_role u s) (u_roles u);
      ob_existing := a_existing s;
      ob_tokens := map (n_owner (a_nft s)) (u_tokens u);
-     ob_approved := map (n_appr (a_nft s)) (u_tokens u) |}.
+     ob_approved := map (approved_of (a_now s) (a_nft s)) (u_tokens u) |}.
